@@ -4,16 +4,16 @@
   A Go path is `[]any`; the library itself files map keys and set elements of any comparable type
   there, users build paths freely, and a `*ZodError` can be nil.
 
-  * Refinement: on every Go-level error the formatters WITH the pending fixes compute what the
+  * Refinement: on every Go-level error the formatters as they stand (since c65f4c0 / 6ff3a13 / e8b2b50) compute what the
     position-level model (Model/Issues.lean) computes on the positions the elements denote
     (`flattenGo_eq`, `formatGo_eq`, `treeifyGo_eq`), so every theorem of Proofs/C19.lean lifts:
     `c19_go_flatten_count`, `c19_go_tree_count`, `c19_go_tree_place`, `c19_go_format_count`,
     `c19_go_nonempty`, `c19_go_never_panics` — FULL statements, for all element types and nil.
-  * The code as it stands at /repo HEAD (`treeInsertCur`, `segDotCur`, `Cfg.head`): it PANICS exactly
-    when a path holds a negative int (`treeInsertCur_none_iff`), ignores elements of other types
-    (`treeInsertCur_eq_dropOther`), and agrees with the fixed code on plain paths (string /
-    non-negative int: `treeInsertCur_plain`, `c19_cur_tree_partial`).  Witnesses: `cur_tree_panics_negative`,
-    `cur_tree_misfiles_other`, `cur_dotpath_other_conflates`, `cur_nil_panics`.
+  * The code before those commits (`treeInsertOld`, `segDotOld`, `Cfg.head`): it PANICKED exactly
+    when a path holds a negative int (`treeInsertOld_none_iff`), ignores elements of other types
+    (`treeInsertOld_eq_dropOther`), and agrees with the fixed code on plain paths (string /
+    non-negative int: `treeInsertOld_plain`, `c19_old_tree_partial`).  Witnesses: `old_tree_panics_negative`,
+    `old_tree_misfiles_other`, `old_dotpath_other_conflates`, `old_nil_panics`.
   * `treeifyCfg_fixed` / `treeifyCfg_head`: the driver's `Cfg`-indexed definition is the fixed,
     resp. the HEAD transcription at the two ends.
 -/
@@ -137,7 +137,7 @@ theorem formatGo_eq (is : List IssueGo) : formatGo is = formatError (normList is
 theorem c19_go_format_count (is : List IssueGo) : (formatGo is).count = leafCountIssues (normList is) := by
   rw [formatGo_eq, c19_format_count]
 
-/-! ## TreeifyError with the pending fix -/
+/-! ## TreeifyError as it stands (since c65f4c0) -/
 
 theorem treeInsertGo_eq (p : List El) (m : String) (t : Tree) :
     treeInsertGo p m t = t.insert (p.map El.pos) m := by
@@ -183,7 +183,7 @@ theorem c19_go_tree_place (p : List Seg) (is : List IssueGo) :
 example : (treeifyGo [.mk .custom [.int (-1)] "m1" [] [], .mk .custom [.str "a", .other "1.5"] "m2" [] [],
     .mk .custom [.str "a"] "m3" [] []]).at [.key "a", .key "1.5"] = ["m2"] := by decide
 
-/-! ## TreeifyError as it stands -/
+/-! ## TreeifyError before c65f4c0 -/
 
 theorem updPropM_some (k : String) (f : Tree → Option Tree) (g : Tree → Tree) (h : ∀ t, f t = some (g t))
     (ps : List (String × Tree)) : updPropM k f ps = some (updProp k g ps) := by
@@ -217,28 +217,28 @@ theorem updItemM_none (f : Tree → Option Tree) (h : ∀ t, f t = none)
   | zero => cases ts <;> simp [updItemM, h]
   | succ n ih => cases ts <;> simp [updItemM, ih]
 
-/-- a path without negative ints: the HEAD code walks it as the fixed code walks the path with the
+/-- a path without negative ints: the old code walked it as the current code walks the path with the
     elements of other types REMOVED (they are ignored: the message lands on the enclosing node) -/
-theorem treeInsertCur_eq_dropOther (p : List El) (hp : p.any El.isNeg = false) (m : String) (t : Tree) :
-    treeInsertCur p m t = some (treeInsertGo (dropOther p) m t) := by
+theorem treeInsertOld_eq_dropOther (p : List El) (hp : p.any El.isNeg = false) (m : String) (t : Tree) :
+    treeInsertOld p m t = some (treeInsertGo (dropOther p) m t) := by
   induction p generalizing t with
-  | nil => simp [treeInsertCur, treeInsertGo, dropOther]
+  | nil => simp [treeInsertOld, treeInsertGo, dropOther]
   | cons e r ih =>
     simp only [List.any_cons, Bool.or_eq_false_iff] at hp
     have ih' := fun t => ih hp.2 t
     cases e with
     | str k =>
       cases t with
-      | node es ps ts => simp [treeInsertCur, treeInsertGo, dropOther, updPropM_some k _ _ ih']
+      | node es ps ts => simp [treeInsertOld, treeInsertGo, dropOther, updPropM_some k _ _ ih']
     | int z =>
       cases z with
       | ofNat n =>
         cases t with
-        | node es ps ts => simp [treeInsertCur, treeInsertGo, dropOther, updItemM_some _ _ ih']
+        | node es ps ts => simp [treeInsertOld, treeInsertGo, dropOther, updItemM_some _ _ ih']
       | negSucc n => simp [El.isNeg] at hp
     | other s =>
       cases t with
-      | node es ps ts => simp [treeInsertCur, dropOther, ih']
+      | node es ps ts => simp [treeInsertOld, dropOther, ih']
 
 theorem dropOther_plain (p : List El) (hp : p.all El.plain = true) : dropOther p = p := by
   induction p with
@@ -262,18 +262,18 @@ theorem plain_no_neg (p : List El) (hp : p.all El.plain = true) : p.any El.isNeg
     | int z => cases z <;> simp_all [El.plain, El.isNeg]
     | other s => rfl
 
-/-- on plain paths (strings and non-negative ints) the HEAD code IS the fixed code -/
-theorem treeInsertCur_plain (p : List El) (hp : p.all El.plain = true) (m : String) (t : Tree) :
-    treeInsertCur p m t = some (treeInsertGo p m t) := by
-  rw [treeInsertCur_eq_dropOther p (plain_no_neg p hp), dropOther_plain p hp]
+/-- on plain paths (strings and non-negative ints) the old code IS the current code -/
+theorem treeInsertOld_plain (p : List El) (hp : p.all El.plain = true) (m : String) (t : Tree) :
+    treeInsertOld p m t = some (treeInsertGo p m t) := by
+  rw [treeInsertOld_eq_dropOther p (plain_no_neg p hp), dropOther_plain p hp]
 
-/-- **TreeifyError at HEAD panics exactly when a path holds a negative int** -/
-theorem treeInsertCur_none_iff (p : List El) (m : String) (t : Tree) :
-    treeInsertCur p m t = none ↔ p.any El.isNeg = true := by
+/-- **TreeifyError before c65f4c0 panicked exactly when a path holds a negative int** -/
+theorem treeInsertOld_none_iff (p : List El) (m : String) (t : Tree) :
+    treeInsertOld p m t = none ↔ p.any El.isNeg = true := by
   constructor
   · intro h
     cases hn : p.any El.isNeg
-    · rw [treeInsertCur_eq_dropOther p hn] at h; simp at h
+    · rw [treeInsertOld_eq_dropOther p hn] at h; simp at h
     · rfl
   · intro h
     induction p generalizing t with
@@ -283,57 +283,57 @@ theorem treeInsertCur_none_iff (p : List El) (m : String) (t : Tree) :
       | str k =>
         have hr : r.any El.isNeg = true := by simpa [El.isNeg] using h
         cases t with
-        | node es ps ts => simp [treeInsertCur, updPropM_none k _ (fun t => ih t hr)]
+        | node es ps ts => simp [treeInsertOld, updPropM_none k _ (fun t => ih t hr)]
       | int z =>
         cases z with
         | ofNat n =>
           have hr : r.any El.isNeg = true := by simpa [El.isNeg] using h
           cases t with
-          | node es ps ts => simp [treeInsertCur, updItemM_none _ (fun t => ih t hr)]
-        | negSucc n => simp [treeInsertCur]
+          | node es ps ts => simp [treeInsertOld, updItemM_none _ (fun t => ih t hr)]
+        | negSucc n => simp [treeInsertOld]
       | other s =>
         have hr : r.any El.isNeg = true := by simpa [El.isNeg] using h
-        simp [treeInsertCur, ih t hr]
+        simp [treeInsertOld, ih t hr]
 
 /-- the region of the partial theorem: every top-level path is plain -/
 def plainErr (is : List IssueGo) : Bool := is.all (fun i => i.path.all El.plain)
 
-theorem treeifyCurFrom_plain (is : List IssueGo) (h : plainErr is = true) (t : Tree) :
-    treeifyCurFrom is t = some (is.foldl (fun t i => treeInsertGo i.path i.msg t) t) := by
+theorem treeifyOldFrom_plain (is : List IssueGo) (h : plainErr is = true) (t : Tree) :
+    treeifyOldFrom is t = some (is.foldl (fun t i => treeInsertGo i.path i.msg t) t) := by
   induction is generalizing t with
   | nil => rfl
   | cons i r ih =>
     simp only [plainErr, List.all_cons, Bool.and_eq_true] at h
-    simp [treeifyCurFrom, treeInsertCur_plain i.path h.1, ih (by simpa [plainErr] using h.2)]
+    simp [treeifyOldFrom, treeInsertOld_plain i.path h.1, ih (by simpa [plainErr] using h.2)]
 
-/-- **TreeifyError as it stands, PARTIAL**: on errors whose paths hold strings and non-negative
+/-- **TreeifyError before c65f4c0, PARTIAL**: on errors whose paths hold strings and non-negative
     ints only it does not panic, carries one message per issue and files it at its position -/
-theorem c19_cur_tree_partial (is : List IssueGo) (h : plainErr is = true) :
-    ∃ t, treeifyCur is = some t ∧ t.count = is.length ∧
+theorem c19_old_tree_partial (is : List IssueGo) (h : plainErr is = true) :
+    ∃ t, treeifyOld is = some t ∧ t.count = is.length ∧
       ∀ p, t.at p = (is.filter (fun i => i.path.map El.pos == p)).map IssueGo.msg := by
   refine ⟨treeifyGo is, ?_, c19_go_tree_count is, fun p => c19_go_tree_place p is⟩
-  simp [treeifyCur, treeifyCurFrom_plain is h, treeifyGo]
+  simp [treeifyOld, treeifyOldFrom_plain is h, treeifyGo]
 
 example : plainErr [.mk .custom [.str "a", .int 3, .str "0"] "m" [] []] = true := by decide
 
-/-- the full statement for the code as it stands -/
-def c19_cur_tree_full : Prop :=
-  ∀ is : List IssueGo, ∃ t, treeifyCur is = some t ∧ t.count = is.length ∧
+/-- the full statement, for the code before c65f4c0 (false: `c19_old_tree_full_false`) -/
+def c19_old_tree_full : Prop :=
+  ∀ is : List IssueGo, ∃ t, treeifyOld is = some t ∧ t.count = is.length ∧
     ∀ p, t.at p = (is.filter (fun i => i.path.map El.pos == p)).map IssueGo.msg
 
 /-- witness 1: `Map(Int(), String()).Parse(map[any]any{-1: 5})` → path `[-1]` → TreeifyError panics -/
-theorem cur_tree_panics_negative : treeifyCur [.mk .invalidType [.int (-1)] "m1" [] []] = none := by decide
+theorem old_tree_panics_negative : treeifyOld [.mk .invalidType [.int (-1)] "m1" [] []] = none := by decide
 
 /-- witness 2: `Map(Float64(), String()).Parse(map[any]any{1.5: 5})` → path `[1.5]` → the message is
     filed at the ROOT, the position of the empty path -/
-theorem cur_tree_misfiles_other :
-    (treeifyCur [.mk .invalidType [.other "1.5"] "m1" [] []]).map (fun t => (t.at [], t.at [.key "1.5"]))
+theorem old_tree_misfiles_other :
+    (treeifyOld [.mk .invalidType [.other "1.5"] "m1" [] []]).map (fun t => (t.at [], t.at [.key "1.5"]))
       = some (["m1"], []) := by decide
 
-theorem c19_cur_tree_full_false : ¬ c19_cur_tree_full := by
+theorem c19_old_tree_full_false : ¬ c19_old_tree_full := by
   intro h
   obtain ⟨t, ht, _⟩ := h [.mk .invalidType [.int (-1)] "m1" [] []]
-  rw [cur_tree_panics_negative] at ht
+  rw [old_tree_panics_negative] at ht
   exact absurd ht (by simp)
 
 /-! ### the `Cfg`-indexed definition the driver runs -/
@@ -356,36 +356,36 @@ theorem negAsKey_dnorm_plain (p : List El) : (negAsKey (p.map El.dnorm)).all El.
     | int z => cases z <;> simp [El.dnorm, negAsKey, El.plain, ih]
     | other s => simp [El.dnorm, negAsKey, El.plain, ih]
 
-theorem treeInsertCur_fixed (p : List El) (m : String) (t : Tree) :
-    treeInsertCur (treePathFor Cfg.fixed p) m t = some (treeInsertGo p m t) := by
+theorem treeInsertOld_fixed (p : List El) (m : String) (t : Tree) :
+    treeInsertOld (treePathFor Cfg.fixed p) m t = some (treeInsertGo p m t) := by
   simp only [treePathFor, Cfg.fixed, if_true]
-  rw [treeInsertCur_plain _ (negAsKey_dnorm_plain p), treeInsertGo_eq, treeInsertGo_eq, negAsKey_dnorm_pos]
+  rw [treeInsertOld_plain _ (negAsKey_dnorm_plain p), treeInsertGo_eq, treeInsertGo_eq, negAsKey_dnorm_pos]
 
 theorem treeifyCfgFrom_fixed (is : List IssueGo) (t : Tree) :
     treeifyCfgFrom Cfg.fixed is t = some (is.foldl (fun t i => treeInsertGo i.path i.msg t) t) := by
   induction is generalizing t with
   | nil => rfl
-  | cons i r ih => simp [treeifyCfgFrom, treeInsertCur_fixed, ih]
+  | cons i r ih => simp [treeifyCfgFrom, treeInsertOld_fixed, ih]
 
 /-- with all fixes in, the driver's TreeifyError is the transcription of the fixed code -/
 theorem treeifyCfg_fixed (is : List IssueGo) : treeifyCfg Cfg.fixed is = some (treeifyGo is) :=
   treeifyCfgFrom_fixed is _
 
 theorem treeifyCfgFrom_head (is : List IssueGo) (t : Tree) :
-    treeifyCfgFrom Cfg.head is t = treeifyCurFrom is t := by
+    treeifyCfgFrom Cfg.head is t = treeifyOldFrom is t := by
   induction is generalizing t with
   | nil => rfl
   | cons i r ih =>
-    have : treeifyCfgFrom ⟨false, false, false, false⟩ r = treeifyCurFrom r := funext ih
-    simp [treeifyCfgFrom, treeifyCurFrom, treePathFor, Cfg.head, this]
+    have : treeifyCfgFrom ⟨false, false, false, false⟩ r = treeifyOldFrom r := funext ih
+    simp [treeifyCfgFrom, treeifyOldFrom, treePathFor, Cfg.head, this]
 
-/-- with no fix in, it is the transcription of /repo HEAD -/
-theorem treeifyCfg_head (is : List IssueGo) : treeifyCfg Cfg.head is = treeifyCur is :=
+/-- with no fix in, it is the transcription of the code before the three commits -/
+theorem treeifyCfg_head (is : List IssueGo) : treeifyCfg Cfg.head is = treeifyOld is :=
   treeifyCfgFrom_head is _
 
 /-! ## nil errors, no panic, non-empty reports -/
 
-/-- **with the pending fixes no formatter panics, on any error — nil included** -/
+/-- **no formatter panics, on any error — nil included** -/
 theorem c19_go_never_panics (e : Err) :
     (reportsCfg Cfg.fixed e).flat.isSome ∧ (reportsCfg Cfg.fixed e).tree.isSome ∧
     (reportsCfg Cfg.fixed e).fmt.isSome ∧ (reportsCfg Cfg.fixed e).pretty.isSome := by
@@ -405,8 +405,8 @@ theorem reportsCfg_fixed (e : Err) :
     simp only [Cfg.fixed] at this
     simp [reportsCfg, this, Spec.issuesOf, prettifyCfg, Cfg.fixed]
 
-/-- witness: at HEAD the four entry points dereference a nil `*ZodError` -/
-theorem cur_nil_panics : (reportsCfg Cfg.head none).flat = none ∧ (reportsCfg Cfg.head none).tree = none ∧
+/-- witness: before e8b2b50 the four entry points dereferenced a nil `*ZodError` -/
+theorem old_nil_panics : (reportsCfg Cfg.head none).flat = none ∧ (reportsCfg Cfg.head none).tree = none ∧
     (reportsCfg Cfg.head none).fmt = none ∧ (reportsCfg Cfg.head none).pretty = none := by
   simp [reportsCfg, Cfg.head]
 
@@ -427,5 +427,34 @@ theorem c19_go_nonempty (is : List IssueGo) (h : is ≠ []) :
   refine ⟨by rw [c19_go_flatten_count]; exact hl, by rw [c19_go_tree_count]; exact hl, ?_⟩
   rw [formatGo_eq]
   exact (c19_nonempty (normList is) hn).2.2.2
+
+/-! ## wrapper issues nested to any depth (union inside union inside element …) -/
+
+/-- every issue — a leaf, or a wrapper whatever is nested in it, to any depth — is accounted for by
+    at least one message of FormatError (`leafCount` is defined by recursion over the whole issue tree;
+    `c19_format_count` says the report carries exactly `leafCountIssues` messages) -/
+theorem leafCount_pos (i : Issue) : 0 < leafCount i := by
+  rw [← leavesIssue_length i []]
+  exact List.length_pos_iff.mpr (leavesIssue_ne_nil [] i)
+
+theorem length_le_leafCountIssues (is : List Issue) : is.length ≤ leafCountIssues is := by
+  induction is with
+  | nil => simp [leafCountIssues]
+  | cons i r ih =>
+    have := leafCount_pos i
+    simp only [List.length_cons, leafCountIssues]
+    omega
+
+/-- **FormatError never carries fewer messages than there are issues**, however the wrapper issues
+    are nested; exactly one per issue when no wrapper has nested issues -/
+theorem c19_format_accounts_every_issue (is : List Issue) : is.length ≤ (formatError is).count := by
+  rw [c19_format_count]; exact length_le_leafCountIssues is
+
+/-- union inside union inside element: the two leaves, filed at element ++ union ++ leaf path -/
+example :
+    let e : List Issue := [.mk .invalidElement [.idx 0] "e" [] [.mk .invalidUnion [.key "u"] "u1"
+      [[.mk .invalidUnion [] "u2" [[.mk .tooBig [.key "x"] "l1" [] []], [.mk .tooSmall [.key "y"] "l2" [] []]] []], []] []]]
+    (formatError e).count = 2 ∧ (formatError e).at ["0", "u", "x"] = ["l1"] ∧ (formatError e).at ["0", "u", "y"] = ["l2"]
+      ∧ (treeify e).count = 1 ∧ (flatten e).count = 1 := by decide
 
 end Gozod.C19
